@@ -474,6 +474,16 @@ func (w *World) buildSchema() *graphql.Schema {
 		}
 		return args.Op, nil
 	})
+	// slowApply is a mutation that takes a while (it does not watch its context)
+	m.FieldFunc("slowApply", func(ctx context.Context, args struct{ Op, Us int64 }) (int64, error) {
+		if !isOracle(ctx) && args.Us > 0 {
+			time.Sleep(time.Duration(args.Us) * time.Microsecond)
+		}
+		if !w.Apply(int(args.Op), "mutation") {
+			return 0, graphql.NewSafeError("no such op")
+		}
+		return args.Op, nil
+	})
 	m.FieldFunc("fail", func(args struct{ Safe bool }) (int64, error) {
 		if args.Safe {
 			return 0, graphql.NewSafeError("mutation failed safely")
